@@ -38,6 +38,18 @@ NEEDS = {
  "r2-C16-trim-start-matches": ("C16", "a continuation line in same-prefix form whose argument itself begins with the prefix text (`--x` under prefix `-`)"),
  "r2-C17-relative-cwd-again": ("C17", "library use with base_dir different from the process cwd and a run directive in a sub-directory (same class as finding F3)"),
  "r2-C18-display-truncation": ("C18", "a directive whose first argument is longer than 50 bytes with a multi-byte character across byte 50"),
+ "r3-C01-overlap-removed-early": ("C01", "two stored tags whose first occurrences overlap on one line, and a later use of the skipped one"),
+ "r3-C02-rescan-reruns-finished": ("C02", "a finished dependency listed again by a directory-scan result that arrives later, while a reader of it is inside its pass (two or more workers, build mode)"),
+ "r3-C03-dir-dedup-miscount": ("C03", "the same directory reaching the coordinator twice (named twice, an alias, or -r over a directory plus one of its sub-directories)"),
+ "r3-C04-signal-is-success": ("C04", "the shell process of a run directive terminated by a signal"),
+ "r3-C06-verify-keeps-stale-temp": ("C06", "a source that reads its own temp file back, the temp file existing with stale content when verify runs"),
+ "r3-C08-existing-output-hides-source": ("C08", "a name.txtpp.ext dependency whose output already exists as a regular file, referenced by include/after or named by its output name"),
+ "r3-C09-deps-built-plainly": ("C09", "--needed with an up-to-date dependency that is reached only through its depender"),
+ "r3-C10-staging-file": ("C10", "--needed writing a stale or missing output while a file named <output>.tmp sits next to it (or a directory at the output path)"),
+ "r3-C11-skip-sourceless-subdirs": ("C11", "-r over a directory with a source at least two levels down and an intermediate directory without a source of its own"),
+ "r3-C14-prefix-check-overwritten": ("C14", "two stored tags and the creation of a third that is prefix-related to one of them; hash-order dependent (about every second run)"),
+ "r3-C16-blank-after-captured": ("C16", "a listening tag, a directive captured by it, and a completely empty next line"),
+ "r3-C18-overlap-guard-removed": ("C18", "two stored tags whose first occurrences overlap at different offsets on one line"),
 }
 for d in sorted(glob.glob("/verif/seeded/*/")):
     name = os.path.basename(d.rstrip("/"))
@@ -57,7 +69,7 @@ for d in sorted(glob.glob("/verif/seeded/*/")):
             checks[k] = v
     if not checks:
         checks = dict(re.findall(r"check (C\d+) exit (\d+)", txt))
-    prop, needs = NEEDS.get(name, (name[3:6] if name.startswith("r2-") else name[:3], "see README.md"))
+    prop, needs = NEEDS.get(name, (name[3:6] if name[:3] in ("r2-", "r3-") else name[:3], "see README.md"))
     meta = dict(
         name=name, breaks_property=prop, needs_to_manifest=needs,
         origin="written by an independent sub-agent that saw only the property text and a scratch worktree of the repository",
